@@ -72,13 +72,15 @@ func (a *Act) callWith(instr ssa.Instruction, c *ssa.CallCommon, rt types.Type, 
 	key := relName(callee)
 	a.callCnt[key]++
 	k := a.callCnt[key]
+	a.atCall("before-call "+fmt.Sprintf("%s#%d", key, k), Val{}, instr)
 	res := a.callStatic(instr, c, rt, args, callee, name, key, k)
-	a.afterCall(fmt.Sprintf("%s#%d", key, k), res, instr)
+	a.atCall("after-call "+fmt.Sprintf("%s#%d", key, k), res, instr)
 	return res
 }
 
-// afterCall processes assert / assume-input clauses attached to "after-call f#k".
-func (a *Act) afterCall(label string, res Val, instr ssa.Instruction) {
+// atCall processes assert / assume-input clauses attached to "before-call f#k" / "after-call f#k".
+// Assertions are proved and then available as facts (lemma hints).
+func (a *Act) atCall(label string, res Val, instr ssa.Instruction) {
 	if a.contract == nil || a.mode == modeSpec {
 		return
 	}
@@ -97,16 +99,18 @@ func (a *Act) afterCall(label string, res Val, instr ssa.Instruction) {
 		return e
 	}
 	for _, as := range a.contract.Asserts {
-		if as.Label == "after-call "+label && !a.dry {
+		if as.Label == label && !a.dry {
 			lbl := as.Name
 			if a.label != "" {
 				lbl = a.label + lbl
 			}
-			a.vc.oblige("assert", lbl, a.cur.reach, mk().evalBool(as.Expr), as.Src, a.posOf(instr.Pos()))
+			t := mk().evalBool(as.Expr)
+			a.vc.oblige("assert", lbl, a.cur.reach, t, as.Src, a.posOf(instr.Pos()))
+			a.vc.assume(a.cur.reach, t)
 		}
 	}
 	for _, as := range a.contract.Inputs {
-		if as.Label == "after-call "+label {
+		if as.Label == label {
 			a.vc.assume(a.cur.reach, mk().evalBool(as.Expr))
 			a.vc.assumed["input assumption ("+a.vc.funcKey+" "+as.Name+"): "+as.Src] = true
 		}
@@ -478,7 +482,7 @@ func (a *Act) builtin(instr ssa.Instruction, b *ssa.Builtin, c *ssa.CallCommon, 
 			if al, ok := sl.X.(*ssa.Alloc); ok {
 				if at, ok := al.Type().(*types.Pointer).Elem().Underlying().(*types.Array); ok && at.Len() == 1 {
 					base := a.val(al)
-					ev := a.loadLoc(a.cur, &Loc{Kind: "elem", Base: base.Term, Idx: app("at", "0", "0"), Root: "E:" + typeName(el), Owner: el, T: el})
+					ev := a.loadLoc(a.cur, &Loc{Kind: "elem", Base: base.Term, Idx: "0", Root: "E:" + typeName(el), Owner: el, T: el})
 					return a.appendOne(a.cur, s, ev, el, a.posOf(instr.Pos()))
 				}
 			}
